@@ -57,3 +57,34 @@ Example c02_spec_on_witnesses :
   = "k{s.a,s.b}><default>.x.k;s.a.k><default>.x.k2".
 Proof. repeat split. Qed.
 Print Assumptions c02_spec_on_witnesses.
+
+(** * Lemma B (columns), steps 1-4: exactness of the end-to-end column pairs on single-SELECT statements.
+    For every trivia list, every metadata-free environment and every INSERT (with or without column list) /
+    CREATE TABLE AS / CREATE VIEW AS over ONE SELECT without WHERE from any number of distinct base tables (explicit or comma
+    joins), with any number of items - column references qualified or not, stars, item aliases - inside the guards
+    [stmt_ok], [colshape] (executable; Tree/LemmaB.v) the whole pipeline of the model (extractors, statement loop,
+    assembly, path enumeration: [script_pairs]) reports exactly the pairs the specification [spec_flows] prescribes.
+    Proof: Tree/LemmaBProofs.v (3 800 lines).  The unguarded statement is refuted by 18 counterexample classes kept there
+    ([cxB_*]): 8 are recorded defects of the implementation (three of them new: K-C02-9/10/11), the rest invalid SQL or
+    artefacts of the specification; [colshape] excludes exactly those.  Not proved: derived tables, WITH, UNION, WHERE-IN
+    at column level (checked by correspondence on every run). *)
+From SV Require Import Tree.Render Tree.LemmaA Tree.LemmaAProofs Tree.LemmaB Tree.LemmaBProofs.
+
+Theorem c02_exact_on_single_select : forall noise e s,
+  noise_ok noise = true -> env_ok e = true -> stmt_ok s = true -> sshape s = true -> colshape s = true ->
+  sel_tables_syntactic s = true ->
+  script_pairs e false [] [r_stmt noise s] = spec_pairs (e_cfg e) s.
+Proof. exact lemma_B_tables_colshape. Qed.
+Print Assumptions c02_exact_on_single_select.
+
+Theorem c02_unguarded_refuted : ~ lemma_B_unguarded.
+Proof. exact lemma_B_statement_refuted. Qed.
+Print Assumptions c02_unguarded_refuted.
+
+Example c02_lemma_B_nonvacuous :
+  let s := SInsert (Some "s3", "out1") (Some ["c0"; "c1"; "c2"])
+             (QSelect [IExpr (EColRef (Some "p") "x") None; IExpr (EColRef None "u1") (Some "k"); IExpr (EColRef (Some "t2") "y") (Some "z")]
+                      [RTable (Some "s1", "t1") (Some "p"); RTable (None, "t2") None] false None) in
+  stmt_ok s && sshape s && colshape s && sel_tables_syntactic s && env_ok env0 = true
+  /\ spec_pairs "" s = ["<default>.t2.y>s3.out1.c2"; "s1.t1.x>s3.out1.c0"; "u1{<default>.t2,s1.t1}>s3.out1.c1"].
+Proof. split; vm_compute; reflexivity. Qed.
